@@ -15,6 +15,17 @@ use crate::{
 pub use id::ContextID;
 
 pub type RunningFuture = futures::future::Shared<oneshot::Receiver<()>>;
+
+/// Has the actor behind this latch terminated (gracefully or not)?
+///
+/// `Shared::peek` alone only reports a result that *some clone has already polled out*,
+/// so an actor that nobody awaited would look alive forever. We therefore also look
+/// ourselves (one non-blocking poll of a fresh clone), and treat a handle that was itself
+/// awaited to completion as stopped.
+pub(crate) fn latch_resolved(running: &RunningFuture) -> bool {
+    use futures::{FutureExt as _, future::FusedFuture as _};
+    running.is_terminated() || running.peek().is_some() || running.clone().now_or_never().is_some()
+}
 pub struct StopNotifier(pub(crate) oneshot::Sender<()>);
 impl StopNotifier {
     pub fn notify(self) {
